@@ -159,20 +159,33 @@ pub fn fresh_digest(tier: &str) -> String {
 }
 
 /// (b) the search transcript is the same under every interleaving
-pub fn schedule_invariance(bound: usize, acc: &mut Acc) {
+pub fn schedule_invariance(bound: usize, shard: usize, nshards: usize, acc: &mut Acc) {
     let roots = [("7k/8/8/8/8/8/8/K7 w - - 0 1", 2u8), ("8/8/8/4k3/8/8/8/R3K3 w - - 0 1", 1), ("7k/5Q2/6K1/8/8/8/8/8 w - - 0 1", 2)];
+    let mut scripts: Vec<c14::Script> = vec![];
     for (fen, d) in roots {
-        let s = c14::Script {
-            name: format!("{} depth {}", fen, d),
-            lines: vec![line(&format!("position fen {}", fen), Guard::Now), line(&format!("go depth {}", d), Guard::Now), line("isready", Guard::Now), line("wait", Guard::Now), line("quit", Guard::WhenAnswered)],
-        };
+        let pos = format!("position fen {}", fen);
+        let go = format!("go depth {}", d);
+        scripts.push(c14::Script { name: format!("{} depth {}", fen, d), lines: vec![line(&pos, Guard::Now), line(&go, Guard::Now), line("isready", Guard::Now), line("wait", Guard::Now), line("quit", Guard::WhenAnswered)] });
+        // histories ending in ucinewgame that leave a timer thread of an earlier, finished search alive: the measured
+        // search must not be influenced by the moment at which that stale timer fires
+        scripts.push(c14::Script { name: format!("stale timer after stop; {} depth {}", fen, d), lines: vec![line(&pos, Guard::Now), line("go movetime 1000", Guard::Now), line("stop", Guard::Now), line("ucinewgame", Guard::Now), line(&pos, Guard::Now), line(&go, Guard::Now), line("wait", Guard::Now), line("quit", Guard::WhenAnswered)] });
+        scripts.push(c14::Script { name: format!("stale timer after wait; {} depth {}", fen, d), lines: vec![line(&pos, Guard::Now), line("go movetime 1000 depth 1", Guard::Now), line("wait", Guard::Now), line("ucinewgame", Guard::Now), line(&pos, Guard::Now), line(&go, Guard::Now), line("wait", Guard::Now), line("quit", Guard::WhenAnswered)] });
+        scripts.push(c14::Script { name: format!("stale timer after ucinewgame mid-search; {} depth {}", fen, d), lines: vec![line(&pos, Guard::Now), line("go wtime 60000 btime 60000 winc 0 binc 0", Guard::Now), line("ucinewgame", Guard::Now), line(&pos, Guard::Now), line(&go, Guard::Now), line("wait", Guard::Now), line("quit", Guard::WhenAnswered)] });
+    }
+    for (k, s) in scripts.into_iter().enumerate() {
+        if k % nshards != shard {
+            continue;
+        }
+        // the measured search is the LAST search of the script: compare the lines of the last search thread only
+        let measured_only = s.name.starts_with("stale");
         let reference: std::sync::Mutex<Option<Vec<String>>> = std::sync::Mutex::new(None);
         let oracle = |e: &sched::Exec| -> Option<String> {
             if let Some(v) = c14::oracle(e) {
                 return Some(v);
             }
             // the search thread's own lines (info ..., bestmove ...) in order
-            let lines: Vec<String> = e.log.iter().filter_map(|ev| if let Ev::Out(t, l) = ev { if *t != 0 { Some(l.clone()) } else { None } } else { None }).collect();
+            let last_search = e.names.iter().rposition(|n| *n == "search");
+            let lines: Vec<String> = e.log.iter().filter_map(|ev| if let Ev::Out(t, l) = ev { if *t != 0 && (!measured_only || Some(*t) == last_search) { Some(l.clone()) } else { None } } else { None }).collect();
             let mut r = reference.lock().unwrap();
             match &*r {
                 None => {
@@ -214,9 +227,10 @@ pub fn run(tier: &str, seed: i64) -> Outcome {
     reports.push(SpaceReport { name: "(c) all fresh-engine sessions once more in a second process (different address-space layout and allocator state)".into(), states: 1, exhaustive: true, note: format!("digest {} [{:.1}s]", mine, t1.elapsed().as_secs_f64()) });
     // (b)
     let t2 = std::time::Instant::now();
-    let mut a5 = Acc::new();
-    schedule_invariance(if q { 2 } else { 3 }, &mut a5);
-    reports.push(SpaceReport { name: format!("(b) E5: `position; go depth d; isready; wait; quit` on 3 roots, all interleavings with deviation cost <= {}", if q { 2 } else { 3 }), states: a5.states, exhaustive: true, note: format!("[{:.1}s]", t2.elapsed().as_secs_f64()) });
+    let nsh = 12;
+    let args: Vec<Vec<String>> = (0..nsh).map(|i| vec!["C19".to_string(), tier.to_string(), "0".to_string(), "--worker".to_string(), format!("--shard={}/{}", i, nsh)]).collect();
+    let a5 = run_workers(&self_exe(), args, nsh);
+    reports.push(SpaceReport { name: format!("(b) E5: `position; go depth d; isready; wait; quit` and three stale-timer histories on 3 roots, all interleavings with deviation cost <= {}", if q { 2 } else { 3 }), states: a5.states, exhaustive: true, note: format!("[{:.1}s]", t2.elapsed().as_secs_f64()) });
     acc.merge(a5);
     let mut out = Outcome::new(acc, reports, "(a) through the real uci_talk: for every prior command word the transcript segments of `ucinewgame; position r; go depth d; wait` for every root and depth of the family must equal those of a fresh engine, byte for byte (info depth/score/nodes/pv and bestmove); (b) the search thread's lines are identical under every explored interleaving; (c) fresh sessions are repeated in-process and in a second process");
     out.traces_validated = out.acc.transitions;
